@@ -5,8 +5,8 @@
    C0 (0x00-0x1F), DEL (0x7F), C1 (0x80-0x9F).  [wc] is wcwidth, any function
    ([wc_ascii wc]: printable ASCII has width 1); [sty] is the style machinery. *)
 From Coq Require Import ZArith List Bool.
-From PTK Require Import Lib.Sx Lib.Py Gen.C10_DisplayMappings Model.C13_Utf8 Model.C10_Screen Model.C10_Producers Model.C10_Wire
-     Proofs.C10_TableFacts Proofs.C10_CopyFacts Proofs.C10_RenderFacts Proofs.C10_ProducerFacts Proofs.C10_WireFacts.
+From PTK Require Import Lib.Sx Lib.Py Gen.C10_DisplayMappings Model.C13_Utf8 Model.C10_Screen Model.C10_Producers Model.C10_Wire Model.C10_Print
+     Proofs.C10_TableFacts Proofs.C10_CopyFacts Proofs.C10_RenderFacts Proofs.C10_ProducerFacts Proofs.C10_WireFacts Proofs.C10_PrintFacts.
 Import ListNotations.
 Open Scope Z_scope.
 
@@ -44,6 +44,12 @@ Theorem C10_control_visible : forall wc c st, wc_ascii wc -> is_control c = true
   exists v, dm_lookup c = Some v /\ cch (char_init wc [c] st) = v /\ 0 < cw (char_init wc [c] st).
 Proof. exact control_visible. Qed.
 Print Assumptions C10_control_visible.
+
+(* ... in exactly ITS caret or hex notation: "^" + chr(c xor 0x40) for C0 and DEL,
+   "<xx>" (two lower-case hex digits of c) for C1 (finite, re-proved per run). *)
+Theorem C10_cell_notation : forall wc c st, is_control c = true -> cch (char_init wc [c] st) = notation_of c.
+Proof. exact cell_notation. Qed.
+Print Assumptions C10_cell_notation.
 
 (* Restyling a cell (Char(cell.char, style'): fill_area, cursor line,
    append_style_to_content) never changes its text. *)
@@ -256,6 +262,39 @@ Theorem C10_wire_stream_bytes : forall toks,
   map snd (decoded_tagged toks) = wire_decode_utf8 (encode_utf8_replace (stream toks)).
 Proof. exact decoded_tagged_is_wire. Qed.
 Print Assumptions C10_wire_stream_bytes.
+
+(* ---- the safe print path (Model/C10_Print.v): renderer.print_formatted_text ----
+   For ANY fragments and styles: no ESC byte of the stream comes from printed
+   text (only from the function's own SGR/reset sequences or from fragments
+   explicitly marked [ZeroWidthEscape]). *)
+Theorem C10_print_no_esc : forall sty fs o, In (o, 27) (tagged_stream (print_formatted_text sty fs)) ->
+  o = FromRenderer \/ o = FromZWE.
+Proof. exact print_no_esc. Qed.
+Print Assumptions C10_print_no_esc.
+
+(* The READLINE_LIKE completion listing prints completion display text through
+   that path (never a screen cell).  Since /repo commit 1d18ea6 the display
+   fragments go through _show_control_characters: the only control characters
+   of the printed listing are the CR LF that end its rows. *)
+Theorem C10_readline_listing_clean : forall sty rows o c,
+  In (o, c) (tagged_stream (print_formatted_text sty (readline_fragments rows))) ->
+  is_control c = true -> o = FromRenderer \/ o = FromZWE \/ (o = FromCell /\ (c = 13 \/ c = 10)).
+Proof. exact readline_listing_clean. Qed.
+Print Assumptions C10_readline_listing_clean.
+
+(* ... and the generator's scan of this run confirms that the listing's
+   print_text call is fed through _show_control_characters (fail closed). *)
+Theorem C10_readline_listing_mapped : readline_listing_mapped = true.
+Proof. exact readline_listing_mapped_checked. Qed.
+Print Assumptions C10_readline_listing_mapped.
+
+(* The code before that commit (finding C10-F2, fixed): the print path replaces
+   nothing but ESC, so a control character of the display text was sent. *)
+Theorem C10_readline_listing_pinned_refuted :
+  exists rows sty c, is_control c = true /\
+    In (FromCell, c) (tagged_stream (print_formatted_text sty (readline_fragments_pinned rows))).
+Proof. exact readline_listing_pinned_refuted. Qed.
+Print Assumptions C10_readline_listing_pinned_refuted.
 
 (* The fuelled loops of the model (row loop, "%i") never run out of fuel. *)
 Theorem C10_fuel : forall wc sty g M pfx lines app width ri x y last vis,
